@@ -50,6 +50,7 @@ type c04Case struct {
 	Loops []c04Loop `json:"loops"`
 	Text  *c04Text  `json:"text,omitempty"` // text part (c04_text.go)
 	Fn    *c04Fn    `json:"fn,omitempty"`   // fnnames part (c04_fn.go)
+	Last  *c04Last  `json:"last,omitempty"` // last part (c04_last.go)
 }
 
 // c04Root is the struct form of the root data.
@@ -1513,7 +1514,7 @@ func init() {
 
 func (p *c04) ID() string { return "C04" }
 func (p *c04) Rule() string {
-	return "part d1 (depth 1): collection variants (22 sequence kinds: slices and arrays of any/string/int widths/uint widths/floats/bool/maps/structs/struct pointers/nested slices, length 0..3, plus missing key, nil interface, typed nil slices) x 27 name pairs (1- and 2-variable form; fresh, shadowing a root map key, a struct json tag, a struct Go field name, an untagged field, the collection's own name) x root data as map/struct/pointer-to-struct, crossed (thorough: fully, path seeded; quick: 3 seeded picks) with v-else placement (none/immediate/whitespace/comment/after another element) x v-if on the looped element (none/skip one value/first only/never) x shape (plain/bindings on the looped element/<template>) x collection path (root key/nested map path/Go field name); part grid2: every (else x if x shape x path x emptiness class x form) combination; part nest: seeded random nests of depth 2 (thorough 2-3) with inner loops over root collections, over the outer item itself (rows of nested slices) or over a field of the outer item, names shadowing outer loop variables/indexes and root names; part nonseq: maps/strings/numbers/... as collection (crash only); part fnnames: item or index variable named like each of 10 vuego template functions (those that are not also reserved built-ins of the expression language) x {plain, v-if on the looped element + v-else, nested, <template>} x {nothing, an operator expression, a call of that function, another loop} evaluated before the loop x 3 entry points, item and index read in text, static attribute, bound attribute, operator expressions and v-if. Every name (loop variable, index, enclosing loop variables, an unshadowed root name) is read through probes in five positions (text {{ n }}, static attribute with interpolation, bound attribute, an expression naming the literal it equals, v-if) before, inside and after each loop and in the v-else branch; a loop whose variable shadows its own collection name is followed by a second loop over the same collection. non-trivial = a loop nest over a sequence description was rendered and compared; distinct by the case description"
+	return "part d1 (depth 1): collection variants (22 sequence kinds: slices and arrays of any/string/int widths/uint widths/floats/bool/maps/structs/struct pointers/nested slices, length 0..3, plus missing key, nil interface, typed nil slices) x 27 name pairs (1- and 2-variable form; fresh, shadowing a root map key, a struct json tag, a struct Go field name, an untagged field, the collection's own name) x root data as map/struct/pointer-to-struct, crossed (thorough: fully, path seeded; quick: 3 seeded picks) with v-else placement (none/immediate/whitespace/comment/after another element) x v-if on the looped element (none/skip one value/first only/never) x shape (plain/bindings on the looped element/<template>) x collection path (root key/nested map path/Go field name); part grid2: every (else x if x shape x path x emptiness class x form) combination; part nest: seeded random nests of depth 2 (thorough 2-3) with inner loops over root collections, over the outer item itself (rows of nested slices) or over a field of the outer item, names shadowing outer loop variables/indexes and root names; part nonseq: maps/strings/numbers/... as collection (crash only); part last: the loop is the last child of its parent, follows static text / indentation / an element plus text, and produces nothing (empty, nil, missing collection, every item rejected, empty inner collection of a nest; control: one item) x looped element {b, <template>, li} x 3 entry points: no instance and no unevaluated source in the output; part fnnames: item or index variable named like each of 10 vuego template functions (those that are not also reserved built-ins of the expression language) x {plain, v-if on the looped element + v-else, nested, <template>} x {nothing, an operator expression, a call of that function, another loop} evaluated before the loop x 3 entry points, item and index read in text, static attribute, bound attribute, operator expressions and v-if. Every name (loop variable, index, enclosing loop variables, an unshadowed root name) is read through probes in five positions (text {{ n }}, static attribute with interpolation, bound attribute, an expression naming the literal it equals, v-if) before, inside and after each loop and in the v-else branch; a loop whose variable shadows its own collection name is followed by a second loop over the same collection. non-trivial = a loop nest over a sequence description was rendered and compared; distinct by the case description"
 }
 
 type c04Names struct{ v, i string }
@@ -1627,11 +1628,13 @@ func (p *c04) sizes(ctx core.Ctx) (nD1, nGrid2, nNest, nNon int) {
 
 func (p *c04) Plan(ctx core.Ctx) int {
 	a, b, c, d := p.sizes(ctx)
-	return a + b + c + d + c04NText() + c04NFn()
+	return a + b + c + d + c04NText() + c04NFn() + c04NLast()
 }
 
 func (p *c04) Gen(ctx core.Ctx, i int) any {
-	if a, b, c, d := p.sizes(ctx); i >= a+b+c+d+c04NText() {
+	if a, b, c, d := p.sizes(ctx); i >= a+b+c+d+c04NText()+c04NFn() {
+		return c04BuildLast(i - (a + b + c + d) - c04NText() - c04NFn())
+	} else if i >= a+b+c+d+c04NText() {
 		return c04BuildFn(i - (a + b + c + d) - c04NText())
 	} else if i >= a+b+c+d {
 		return c04BuildText(i - (a + b + c + d))
@@ -1829,6 +1832,10 @@ func (p *c04) Exec(ctx core.Ctx, cc any) core.Obs {
 	var o core.Obs
 	if c.Part == "text" && c.Text != nil {
 		c04ExecText(c, &o)
+		return o
+	}
+	if c.Part == "last" && c.Last != nil {
+		c04ExecLast(c, &o)
 		return o
 	}
 	if c.Part == "fnnames" && c.Fn != nil {
